@@ -222,6 +222,12 @@ func (c *Conn) connect(ctx context.Context) error {
 	go func() {
 		select {
 		case <-ctx.Done():
+			select {
+			case <-done:
+				// The dial completed before the context was cancelled (select picks at random when both are ready).
+				return
+			default:
+			}
 			debugf("context cancellation - sending disconnect frame...")
 			c.p.write(disconnectFrame(c.srcCall, c.dstCall, c.p.port))
 		case <-done:
